@@ -47,7 +47,7 @@ import (
 // Answer is how the stub server answers one request.
 type Answer struct {
 	Kind   string `json:"kind"`   // valid | truncated | oversized | random | empty | reset | huge-length | no-length | stall
-	Status int    `json:"status"` // 200, 204, 301, 404, 500
+	Status int    `json:"status"` // 200, 204, 301, 404, 500; 429 and 503 come with Retry-After: 86400
 }
 
 // HostileCase is one feeder (or distributor) cycle against a hostile server.
@@ -137,6 +137,10 @@ func (s *hostileServer) RoundTrip(r *http.Request) (*http.Response, error) {
 	hdr := http.Header{}
 	if a.Status == 301 {
 		hdr.Set("Location", "/elsewhere")
+	}
+	if a.Status == 429 || a.Status == 503 {
+		// push-back with a pacing hint no client should obey blindly: a day
+		hdr.Set("Retry-After", "86400")
 	}
 	resp := &http.Response{StatusCode: a.Status, Status: strconv.Itoa(a.Status), Header: hdr, Body: io.NopCloser(bytes.NewReader(body)), Request: r, ContentLength: int64(len(body))}
 	switch a.Kind {
@@ -559,13 +563,13 @@ func genHostile(rt *rapid.T) *HostileCase {
 	for i := 0; i < n; i++ {
 		c.Script = append(c.Script, Answer{
 			Kind:   []string{"valid", "valid", "valid", "valid", "valid", "valid", "truncated", "truncated", "oversized", "oversized", "random", "random", "empty", "empty", "reset", "reset", "huge-length", "huge-length", "no-length", "no-length", "no-length", "stall"}[vlib.Uniform(rt, 22, "akind")],
-			Status: rapid.SampledFrom([]int{200, 200, 200, 200, 204, 301, 404, 500}).Draw(rt, "astatus"),
+			Status: rapid.SampledFrom([]int{200, 200, 200, 200, 204, 301, 404, 500, 429, 503}).Draw(rt, "astatus"),
 		})
 	}
 	return c
 }
 
-const ruleC19feed = "scripts of hostile log-server / distributor behaviour (per request: valid, truncated, oversized 2 MiB, random, empty body, a Content-Length of 2^62 in front of a short body, no Content-Length, a server that never answers x status 200/204/301/404/500 x connection reset; the HTTP client has a 2 s timeout of its own, as in the shipped binaries; log-signed checkpoints with sizes from {0,1,..,2^62-1,2^62,2^62+1,2^63-1,2^63,2^64-1,random} and roots of 0/5/32/33 bytes or real roots; for rekor also well-formed JSON with hostile content and proofs whose hex elements are 0, 1, 31, 33, 64 or 100 Ki bytes long or of odd length) for the serverless, sumdb, pixel, rekor and tiles feeders and the REST distributor, against a real witness that already holds a smaller honest checkpoint; executed in child processes under a watchdog; oracle: no panic, the process survives, and the cycle returns a result or an error within its context deadline + 20 s; non-trivial = the cycle got past its first validation step (a second request was made or the witness was asked to update); distinct by case hash"
+const ruleC19feed = "scripts of hostile log-server / distributor behaviour (per request: valid, truncated, oversized 2 MiB, random, empty body, a Content-Length of 2^62 in front of a short body, no Content-Length, a server that never answers x status 200/204/301/404/500 and 429/503 with Retry-After: 86400 x connection reset; the HTTP client has a 2 s timeout of its own, as in the shipped binaries; log-signed checkpoints with sizes from {0,1,..,2^62-1,2^62,2^62+1,2^63-1,2^63,2^64-1,random} and roots of 0/5/32/33 bytes or real roots; for rekor also well-formed JSON with hostile content and proofs whose hex elements are 0, 1, 31, 33, 64 or 100 Ki bytes long or of odd length) for the serverless, sumdb, pixel, rekor and tiles feeders and the REST distributor, against a real witness that already holds a smaller honest checkpoint; executed in child processes under a watchdog; oracle: no panic, the process survives, and the cycle returns a result or an error within its context deadline + 20 s; non-trivial = the cycle got past its first validation step (a second request was made or the witness was asked to update); distinct by case hash"
 
 func hostileHash(c *HostileCase) string {
 	b, _ := json.Marshal(c)
@@ -673,6 +677,12 @@ func TestC19Sizes(t *testing.T) {
 		cases = append(cases, &HostileCase{Feeder: f, WitnessSize: 3, CpSize: 9, CpRootLen: 32, CpSigner: "log", Periodic: true},
 			&HostileCase{Feeder: f, WitnessSize: 3, CpSize: 9, CpRootLen: 32, CpSigner: "stranger", Periodic: true},
 			&HostileCase{Feeder: f, WitnessSize: 300, CpSize: 7, CpRootLen: 32, CpSigner: "log", CpRealTree: true, Periodic: true})
+	}
+	// push-back with a Retry-After of a day: the cycle still ends at its own deadline
+	for _, f := range []string{"serverless", "sumdb", "pixel", "rekor", "tiles", "distributor"} {
+		for _, stc := range []int{429, 503} {
+			cases = append(cases, &HostileCase{Feeder: f, WitnessSize: 3, CpSize: 9, CpRootLen: 32, CpSigner: "log", CpRealTree: true, DeadlineMs: 500, Script: []Answer{{Kind: "valid", Status: stc}}})
+		}
 	}
 	for shape := 1; shape <= 12; shape++ {
 		for _, ws := range []int64{-1, 3} {
